@@ -163,7 +163,74 @@ static void lq_scenario(int limit, int nprod, int cons_kind) {
     }
 }
 
+// bounded queue: unblock_push() on its own thread against the pop that admits the blocked push
+static void lq_unblock_scenario(int limit, int cons_kind) {
+    int64_t *s = vrt_scratch();
+    {
+        auto q = std::make_unique<cocls::limited_queue<int>>((std::size_t)limit);
+        int items = limit + 1;  // the last push finds the queue full unless the consumer was faster
+        // scratch 60: pushes completed, 61: pushes failed by unblock_push, 62: unblock result (1 true, 2 false)
+        vstd::thread pt([&] {
+            vrt_label("prod0");
+            for (int j = 1; j <= items; j++) {
+                cocls::future<void> f = q->push(j);
+                try {
+                    f.wait();
+                    vrt_scratch()[60]++;
+                } catch (const TestError &) {
+                    vrt_scratch()[61]++;
+                }
+            }
+        });
+        vstd::thread ct([&] {
+            vrt_label("cons0");
+            if (cons_kind == CK_CORO) {
+                [](cocls::limited_queue<int> &q) -> cocls::async<void> {
+                    int v = co_await q.pop();
+                    got(0, v);
+                    vrt_scratch()[50] = 1;
+                }(*q)
+                                                        .detach();
+            } else {
+                int v = q->pop().wait();
+                got(0, v);
+                vrt_scratch()[50] = 1;
+            }
+        });
+        vstd::thread ut([&] {
+            vrt_label("unblocker");
+            bool r = q->unblock_push(std::make_exception_ptr(TestError(1)));
+            vrt_scratch()[62] = r ? 1 : 2;
+        });
+        vrt_label("main-join");
+        pt.join();
+        ct.join();
+        ut.join();
+        vrt_label("main-wait-consumer-done");
+        while (!s[50]) vrt_yield();
+        vrt_label("main");
+        VRT_CHECK(s[S_CNT] == 1 && s[S_VAL] == 1, "lq/per-producer-order", "the consumer's single pop delivered %ld (count %ld), expected item 1", (long)s[S_VAL], (long)s[S_CNT]);
+        VRT_CHECK(s[60] + s[61] == items, "lq/push-not-completed", "%ld pushes completed and %ld failed out of %d", (long)s[60], (long)s[61], items);
+        VRT_CHECK((s[62] == 1) == (s[61] == 1) && s[61] <= 1, "lq/unblock-mismatch", "unblock_push returned %s but %ld pushes ended with its exception", s[62] == 1 ? "true" : "false", (long)s[61]);
+        // conservation: every push that completed put its item into the queue; a failed push did not
+        std::size_t expect_left = (std::size_t)(s[60] - 1);
+        VRT_CHECK(q->size() == expect_left, "lq/item-lost", "%ld pushes completed, 1 item popped, size()=%zu", (long)s[60], q->size());
+        int prev = 1;
+        for (std::size_t k = 0; k < expect_left; k++) {
+            cocls::future<int> f = q->pop();
+            VRT_CHECK(f.ready(), "lq/item-lost", "pop on a queue that should hold %zu more items is pending", expect_left - k);
+            int v = f.value();
+            VRT_CHECK(v > prev && v <= items, "lq/invented-item", "drained item %d after %d", v, prev);
+            prev = v;
+        }
+        VRT_CHECK(q->size() == 0, "lq/size", "size()=%zu after draining", q->size());
+        vrt_outcome("unblock=%ld failed=%ld", (long)s[62], (long)s[61]);
+    }
+}
+
 VRT_REGISTER(reg_queue) {
+    for (int limit = 1; limit <= 2; limit++)
+        for (int ck = 0; ck < 2; ck++) vrt::add("lq_l" + std::to_string(limit) + "_unblock_" + (ck ? "coro" : "block"), [=] { lq_unblock_scenario(limit, ck); });
     for (int np = 1; np <= 2; np++)
         for (int nc = 1; nc <= 2; nc++)
             for (int k0 = 0; k0 < 2; k0++)
